@@ -370,4 +370,64 @@ Section Glue.
           rewrite Hir. exists s. split; [exact T0|]. split; [exact R0|]. split; [exact G | reflexivity].
   Qed.
 
+  Lemma cnt_fin_log_fin g q p : cnt_fin p (RM.evs (RM.log g (RM.EvFin q))) = (if N.eqb q p then 1 else 0) + cnt_fin p (RM.evs g).
+  Proof. reflexivity. Qed.
+
+  Lemma rel_add_fin g s q : Rel g s -> Rel (RM.log g (RM.EvFin q)) (add_log (LFin (idn q)) s).
+  Proof.
+    intros R. constructor.
+    - apply R. - apply R. - apply R. - apply R.
+    - intros p. rewrite fin_add_fin, idn_eqb, N.eqb_sym, cnt_fin_log_fin, (rel_fin g s R p). reflexivity.
+    - intros x Hx. rewrite fin_add_fin in Hx. change (owned (add_log (LFin (idn q)) s) x) with (owned s x).
+      apply (rel_own g s R x). lia.
+    - apply R.
+  Qed.
+
+  Lemma rel_add_free g s x : Rel g s -> Rel g (add_log (LFree x) s).
+  Proof.
+    intros R. constructor.
+    - apply R. - apply R. - apply R. - apply R.
+    - intros p. rewrite fin_add_free. apply R.
+    - intros y Hy. rewrite fin_add_free in Hy. apply (rel_own g s R y Hy).
+    - apply R.
+  Qed.
+
+  Lemma rel_finish g s x : Rel g s -> 0 < fin_count s x ->
+    Rel g (add_log (LFree x) (set_owned (upd_owned (owned s) x None) s)).
+  Proof.
+    intros R Hpos. apply rel_add_free. constructor.
+    - apply R. - apply R. - apply R. - apply R. - apply R.
+    - intros y Hy. change (fin_count s y = 0) in Hy. cbn [owned set_owned]. unfold upd_owned.
+      destruct (Nat.eqb_spec y x) as [->|Hne]; [lia | apply (rel_own g s R y Hy)].
+    - apply R.
+  Qed.
+
+  (* dealloc(destruct(q)): the destructor of the life-cycle machine matches C17's, at every pair
+     of fuels (C17's nesting fuel f, the life-cycle machine's fuel fm) *)
+  Lemma sim_fin : forall f fm, FinSim (finF fm) fm f.
+  Proof.
+    induction f as [|f IH]; intros fm; (split; [apply finalise_ok|]);
+      intros A g s q g' T R G Hr Hp Hf Hinfo Hm H; (destruct fm as [|fm']; [lia|]);
+      rewrite cfinw_eq in H; cbn [finalise].
+    all: destruct (add_fin_ok A s (idn q) G Hr Hp Hf Hinfo) as (G1 & E1 & M1).
+    all: pose proof (rel_add_fin g s q R) as Rl.
+    all: set (s1 := add_log (LFin (idn q)) s) in *.
+    all: change (spawns s1 (idn q)) with (spawns s (idn q)); rewrite (rel_spawn g s R (idn q)) in *; simpl fold_left.
+    all: change (owned s1 (idn q)) with (owned s (idn q)); rewrite (rel_own g s R (idn q) Hf), own0_idn.
+    all: set (gl := RM.log g (RM.EvFin q)) in *.
+    all: assert (Tl : Tab gl) by (apply (tab_fields g); auto).
+    - (* C17 fuel 0: only a destructor that deletes nothing can succeed *)
+      destruct (RP.d_owns d q) as [|t ts]; [|discriminate].
+      inversion H; subst g'. split; [exact Tl | apply rel_add_free; exact Rl].
+    - destruct (RP.d_owns d q) as [|t ts] eqn:Hown.
+      + inversion H; subst g'. split; [exact Tl | apply rel_add_free; exact Rl].
+      + assert (ts = []) by (destruct (boxlike q) as [Hb|[t' Hb]]; rewrite Hown in Hb; [discriminate | inversion Hb; reflexivity]).
+        subst ts.
+        assert (Hm1 : measure s1 < fm') by (simpl in M1; lia).
+        destruct (sim_rem_step (finF fm') fm' f (IH fm') (idn q :: A) gl s1 t g' Tl Rl G1 Hm1 H) as [T2 R2].
+        split; [exact T2|]. apply rel_finish; [exact R2|].
+        destruct (LifecycleProofs.gc_rem_ok _ _ (finalise_ok fm') (idn q :: A) s1 (idn t) G1 Hm1) as (G2 & _).
+        destruct (g_prog _ _ G2 (idn q) (or_introl eq_refl)). lia.
+  Qed.
+
 End Glue.
